@@ -383,11 +383,19 @@ def translate_unicode(repo, out):
     out.append(f"def utf8Offsets : List Nat := [{', '.join(ovals)}]\n")
 
     # length(char ch): a pure function of one byte -> its 256 values, obtained by EXECUTING the current source
-    table = run_probe(repo)
+    probe = run_probe(repo)
+    table = probe["length"]
     out.append("/-- `Unicode::length((char)b)` for b = 0..255, printed by harness/codec_probe.cpp built from the current sources -/\n"
                f"def utf8LengthTable : List Nat :=\n  {table}\n")
     out.append("/-- `Unicode::length(char ch)`; a byte is its value modulo 256, the table has 256 entries -/\n"
                "def utf8Length (b : Nat) : Nat := utf8LengthTable.getD (b % 256) 0\n")
+    out.append("\n/-! include/nstd/String.hpp + the case maps of src/String.cpp, by execution of the probe -/\n"
+               "/-- `String::isSpace((char)b)` for b = 0..255 (1 = true) -/\n"
+               f"def strIsSpaceTable : List Nat :=\n  {probe['isspace']}\n"
+               "/-- `(uchar)String::toLowerCase((char)b)` = `lowerCaseMap[(uchar&)c]` for b = 0..255 -/\n"
+               f"def lowerCaseMap : List Nat :=\n  {probe['lower']}\n"
+               "/-- `(uchar)String::toUpperCase((char)b)` = `upperCaseMap[(uchar&)c]` for b = 0..255 -/\n"
+               f"def upperCaseMap : List Nat :=\n  {probe['upper']}\n")
 
     # fromString first-byte test: `(*(const uchar*)ch & M) == 0`  or  `*(const uchar*)ch < P`
     fbody = strip_comments(function_body(src, r"static\s+uint32\s+fromString\s*\(\s*const\s+char\s*\*\s*ch\s*,\s*usize\s+len\s*\)\s*\{", "Unicode::fromString(const char*, usize)"))
@@ -474,21 +482,26 @@ def run_probe(repo):
     cxx = os.environ.get("CXX", "g++")
     with tempfile.TemporaryDirectory(prefix="codec-probe-", dir=os.environ.get("TMPDIR", "/tmp")) as d:
         exe = Path(d) / "probe"
-        p = subprocess.run([cxx, "-std=gnu++11", "-O0", f"-I{repo}/include", str(VERIF / "harness" / "codec_probe.cpp"), "-o", str(exe)],
+        p = subprocess.run([cxx, "-std=gnu++11", "-O0", f"-I{repo}/include", str(VERIF / "harness" / "codec_probe.cpp"),
+                            f"{repo}/src/String.cpp", f"{repo}/src/Memory.cpp", "-o", str(exe)],
                            stdout=subprocess.PIPE, stderr=subprocess.STDOUT, text=True, errors="replace", timeout=300)
         if p.returncode != 0:
             raise TranslateError("probe harness/codec_probe.cpp does not compile against the current sources: " + p.stdout[-600:])
         r = subprocess.run([str(exe)], stdout=subprocess.PIPE, stderr=subprocess.STDOUT, text=True, errors="replace", timeout=60)
         if r.returncode != 0:
             raise TranslateError("probe failed: " + r.stdout[-300:])
+    tables = {}
     for line in r.stdout.splitlines():
         t = line.split()
-        if t and t[0] == "length":
+        if t and t[0] in ("length", "isspace", "lower", "upper"):
             vals = [int(x) for x in t[1:]]
             if len(vals) != 256:
-                raise TranslateError("probe: expected 256 values of Unicode::length")
-            return vals
-    raise TranslateError("probe printed no `length` line")
+                raise TranslateError(f"probe: expected 256 values in line `{t[0]}`")
+            tables[t[0]] = vals
+    for k in ("length", "isspace", "lower", "upper"):
+        if k not in tables:
+            raise TranslateError(f"probe printed no `{k}` line")
+    return tables
 
 
 def generate(repo):
